@@ -208,6 +208,8 @@ class Conc:
             return f'<loop {" ".join(a)}>{kids}</loop>{nl}'
         if k == "reuse":
             a = [f'id="r{i}"', f'href="#n{n["href"]}"'] + [f'{x}="{v}"' for x, v in n["loc"]]
+            if n["ref"] > 0:
+                a.append(f'xy="#n{n["ref"]}|h 1"')
             if i % 2 == 0:
                 a.append(f'class="rc{i}"')     # classes of the reuse element are inherited by the instance
             return f'<reuse {" ".join(a)}/>{nl}'
